@@ -29,9 +29,11 @@ Class == TLCEval([k \in 1..Len(Loads) |->
   ELSE IF Dec[k].leapcnt # 0 THEN "mustfail"
   ELSE IF ZT[k].rule.kind = "bad" THEN (IF Unconstrained(Dec[k].footer) THEN "other" ELSE "mustfail")
   ELSE IF TimesInZicRange(Dec[k]) /\ Dec[k].typecnt <= 254 /\ WellFormed(ZT[k]) THEN "zic"
+  \* the literal reading of the premise (designation-only entries may stand next to offset changes), for the family the driver marks
+  ELSE IF Loads[k].relaxed = 1 /\ TimesInZicRange(Dec[k]) /\ Dec[k].typecnt <= 254 /\ WellFormedD(ZT[k]) THEN "zicD"
   ELSE "other"])
 ASSUME PrintT(<<"CLASSES", Class>>)
-Oracle(z) == Class[z] = "zic"          \* the functional oracle applies (the property's premise holds)
+Oracle(z) == Class[z] \in {"zic", "zicD"}          \* the functional oracle applies (the property's premise holds)
 
 VARIABLES l, bad, cv, chn
 vars == <<l, bad, cv, chn>>
@@ -58,7 +60,7 @@ ExtCount(Z) ==
   IN  2 * 403 - Cardinality({i \in 1..Len(two) : two[i].at \preceq la})
 TransPrefix(n) == <<35, 116, 114, 97, 110, 115, 61>> \o WDec(W(n)) \o <<32>>
 OkLoad(e) == /\ e.ub = 0
-             /\ Class[e.z] = "zic" => e.ok = 1
+             /\ Class[e.z] \in {"zic", "zicD"} => e.ok = 1
              /\ Class[e.z] = "mustfail" => e.ok = 0
              /\ e.isutc = 1 - e.ok
              /\ (Class[e.z] = "zic" /\ ZT[e.z].rule.kind \in {"none", "std"}) => e.desc = DescOf(ZT[e.z], Dec[e.z])
